@@ -286,6 +286,7 @@ struct Plan {
   int64_t cancel_at = -1;
   int connect_kind = CB_OK_NOW;
   int64_t connect_delay = 0;
+  int want_fd = -1;  // descriptor number the connection's socket() call returns (-1: the kernel's next free one)
   bool hold = true;
 };
 static Plan *PL;
@@ -342,6 +343,7 @@ static void run_request(const Request &rq, Plan &p, Got &g) {
   ab.kind = p.connect_kind;
   ab.delay = p.connect_delay;
   K().addrs[3000] = ab;
+  if (p.want_fd >= 0) K().socket_fd_script.push_back(p.want_fd);
   int port = 3000;
   // expected request bytes
   std::string expect = rq.method + " " + rq.path + " HTTP/1.1\r\n";
@@ -445,6 +447,9 @@ static void parse_common(const Case &c, Plan &p, size_t bodylen) {
     } else if (op.k == "conn") {
       p.connect_kind = (A(0) & 1) ? CB_ASYNC_OK : CB_OK_NOW;
       p.connect_delay = std::min<int64_t>(std::max<int64_t>(A(1), 0), 1000000);
+    } else if (op.k == "fd") {
+      static const int FDS[] = {0, 1, 2, 3, 7, 39, 255, 256, 1023, 1024, 5000};
+      p.want_fd = FDS[(size_t)(((A(0) % 11) + 11) % 11)];
     } else if (op.k == "cancel")
       p.cancel_at = std::min<int64_t>(std::max<int64_t>(A(0), 0), 30000000);
   }
@@ -561,6 +566,7 @@ static Outcome run_c09(const Case &c) {
   if (bl > (1 << 20)) o.cls("body-above-1MiB");
   if (nchunks >= 2) o.cls("multi-chunk");
   if (nchunks >= 257) o.cls("chunks>=257");
+  if (p.want_fd >= 0 && p.want_fd <= 2) o.cls("socket-is-descriptor-0..2");
   for (auto &sx : x.cls) o.cls(sx);
   o.counters["recv_calls"] = ndata;
   X = nullptr;
@@ -614,6 +620,7 @@ static void gen_response_ops(Case &c, int tier, bool hostile) {
   }
   c.push_back(Op("end", {*rc::gen::weightedElement<int>({{3, 0}, {2, 1}, {hostile ? 1 : 0, 2}})}));
   c.push_back(Op("conn", {*range<int>(0, 1), *rc::gen::elementOf(std::vector<int64_t>{0, 1, 1000, 30000})}));
+  if (*range<int>(0, 4) == 0) c.push_back(Op("fd", {*range<int>(0, 10)}));  // the process may have closed its standard descriptors
 }
 
 static rc::Gen<Case> gen_c09(int tier) {
@@ -785,6 +792,7 @@ static Outcome run_c08(const Case &c0) {
   o.nontrivial = (nmut >= 1 && past_status && !bodiless) || ndata >= 3;
   o.cls(r.framing == 0 ? "content-length" : r.framing == 1 ? "chunked" : "close-delimited");
   o.cls("mutations-" + std::to_string(std::min(nmut, 4)));
+  if (p.want_fd >= 0 && p.want_fd <= 2) o.cls("socket-is-descriptor-0..2");
   if (p.limit == bl) o.cls("limit-equals-body");
   if (p.limit + 1 == bl || p.limit + 2 == bl) o.cls("limit-just-below-body");
   if (p.limit == 0) o.cls("limit-zero");
